@@ -11,8 +11,9 @@
 (*           EXACTLY over the rationals <<num, den>> (den > 0, reduced).   *)
 (*           // and % have floor semantics for either sign (Python's),     *)
 (*           trunc rounds toward zero.  Eval is total except for division  *)
-(*           by zero (and the two cases that leave the rationals: a        *)
-(*           non-integer exponent, the root of a non-square): Undef.       *)
+(*           by zero (and the cases that leave the model: a non-integer    *)
+(*           exponent, the root of a non-square, a power beyond the 32-bit *)
+(*           range): Undef.                                                *)
 (*   Partial substituting some symbols, folding the closed sub-terms, and  *)
 (*           evaluating the residual later gives Eval under the union.     *)
 (*   Show    the textual form, as a token sequence, with the standard      *)
